@@ -213,10 +213,12 @@ var longUnits = []string{"x", "ab ", "\x00", "1", "é", "\xff", "9", "1\x00", "a
 
 func (g *gen) longString() string {
 	u := g.pick(longUnits, "longunit")
+	// bounded: a helper that is linear in its input, evaluated once per element
+	// of an array made from another long value, costs the product of the two
 	n := 300
 	switch g.intn(20, "longclass") {
 	case 0:
-		n = 70000
+		n = 20000
 	case 1, 2, 3, 4:
 		n = 5000
 	}
